@@ -43,6 +43,7 @@ TRestart   == IsEv("restart") /\ Restart /\ Match
 TSetStatus == IsEv("status") /\ SetStatus(Ev.arg = 1) /\ Match
 TGetStatus == IsEv("getstatus") /\ GetStatus /\ Match
 TBAlloc    == IsEv("balloc") /\ Ev.arg \in Blockers /\ BlockerAlloc(Ev.arg) /\ Match
+TBAllocF   == IsEv("ballocfail") /\ Ev.arg \in Blockers /\ BlockerAllocRefused(Ev.arg) /\ Match
 TBFree     == IsEv("bfree") /\ Ev.arg \in Blockers /\ BlockerFree(Ev.arg) /\ Match
 TFree      == IsEv("free") /\ Free /\ Match
 TDispatch  == IsEv("dispatch") /\ Dispatch /\ Match
@@ -51,7 +52,7 @@ TPoll2     == IsEv("poll2") /\ Ev.act \in Acts2 /\ Poll2(Ev.act) /\ Match
 
 TInit == l = 1 /\ InitWith("idler")
 TNext == \/ TReset \/ TStart \/ TStop \/ TRestart \/ TSetStatus \/ TGetStatus
-         \/ TBAlloc \/ TBFree \/ TFree \/ TDispatch \/ TPoll \/ TPoll2
+         \/ TBAlloc \/ TBAllocF \/ TBFree \/ TFree \/ TDispatch \/ TPoll \/ TPoll2
 TSpec == TInit /\ [][TNext]_tvars
 
 Accepted == LET d == TLCGet("stats").diameter IN
